@@ -112,16 +112,16 @@ def lookupConverterOn (env : Env) (name : String) (sig : FuncSig) (label : Strin
     .ok (sig.params.headD 0, sig.results.headD 0, sig.results.length == 2 && env.isErrorType (sig.results.getD 1 0))
   | _ => .error "lookupConverterFunc: unknown path"
 
-/-- **`lookupConverterFunc` follows the source**: found, a function, exactly one parameter, one or two
-results, the second an `error` — tested in the order of the Go code -/
+/-- **`lookupConverterFunc` follows the source**: found, a function, exactly one parameter and that not variadic, one
+or two results, the second an `error` — tested in the order of the Go code -/
 theorem lookupConverterFunc_follows_source (env : Env) (sc : Scope) (name : String) :
     lookupConverterFunc env sc name =
       (match lookupType env sc name with
-       | .notFound => lookupConverterOn env name default (Generated.Decisions.lookupConverterFunc true false false false false false false)
-       | .notFunc => lookupConverterOn env name default (Generated.Decisions.lookupConverterFunc false false false false false false false)
+       | .notFound => lookupConverterOn env name default (Generated.Decisions.lookupConverterFunc true false false false false false false false)
+       | .notFunc => lookupConverterOn env name default (Generated.Decisions.lookupConverterFunc false false false false false false false false)
        | .func sig => lookupConverterOn env name sig (Generated.Decisions.lookupConverterFunc false true
-           (sig.params.length != 1) (sig.results.length < 1) (2 < sig.results.length) (sig.results.length == 2)
-           (env.isErrorType (sig.results.getD 1 0)))) := by
+           (sig.params.length != 1) (sig.results.length < 1) (2 < sig.results.length) sig.variadic
+           (sig.results.length == 2) (env.isErrorType (sig.results.getD 1 0)))) := by
   unfold lookupConverterFunc Generated.Decisions.lookupConverterFunc
   cases lookupType env sc name with
   | notFound => simp [lookupConverterOn]
@@ -129,7 +129,8 @@ theorem lookupConverterFunc_follows_source (env : Env) (sc : Scope) (name : Stri
   | func sig =>
     simp only
     rcases hp : sig.params with _ | ⟨a, _ | ⟨b, ps⟩⟩ <;> rcases hr : sig.results with _ | ⟨r, _ | ⟨e, _ | ⟨x, rs⟩⟩⟩ <;>
-      simp [lookupConverterOn, hp, hr] <;>
+      cases hv : sig.variadic <;>
+      simp [lookupConverterOn, hp, hr, hv] <;>
       (cases env.isErrorType e <;> simp)
 
 end Convergen.Bridge.Decisions
